@@ -212,7 +212,13 @@ func checkC08(c *an.Ctx) {
 					recv = cc.Args[0]
 				}
 				// a helper that sets on a container it was handed: the container is what its callers pass
-				if prm, isPrm := an.Resolve(recv).(*ssa.Parameter); isPrm && prm.Parent() == fn {
+				var prmSrc *ssa.Parameter
+				for _, rs := range an.Sources(recv) {
+					if q, isPrm := rs.(*ssa.Parameter); isPrm && q.Parent() == fn && !isTaskMethod {
+						prmSrc = q
+					}
+				}
+				if prm := prmSrc; prm != nil {
 					idx := -1
 					for i, q := range fn.Params {
 						if q == prm {
@@ -229,7 +235,7 @@ func checkC08(c *an.Ctx) {
 							continue
 						}
 						fa2, isFA2 := u2.X.(*ssa.FieldAddr)
-						if !isFA2 || !(an.TypeIs(fa2.X.Type(), "pkg/task", "Task") || an.TypeIs(fa2.X.Type(), "pkg/runner", "ExecutionContext")) {
+						if !isFA2 || !(an.TypeIs(fa2.X.Type(), "pkg/task", "Task") || an.TypeIs(fa2.X.Type(), "pkg/runner", "ExecutionContext") || an.TypeIs(fa2.X.Type(), "pkg/scheduler", "Stage")) {
 							continue
 						}
 						name2 := an.AccessPath(fa2).LastField()
@@ -241,7 +247,7 @@ func checkC08(c *an.Ctx) {
 						if freshContainer(arg, 0) {
 							c.OK(rule1, key2, x.Pos(), "Set on a container its caller built in the same activation")
 						} else {
-							c.Bad(rule1, key2, x.Pos(), "%s calls Set on its parameter %s, which %s binds to the container held in %s of %s (%s): the container is shared by every user of that task or context — a per-stage copy of the task is shallow — so the write is visible to other stages, pipelines and direct runs", an.Short(fn), prm.Name(), an.Short(site.Parent()), an.TypeField(fa2), an.Prov(fa2.X), p.Pos(site.Pos()))
+							c.Bad(rule1, key2, x.Pos(), "%s calls Set on its parameter %s, which %s binds to the container held in %s of %s (%s): the container is shared by every user of that task, stage or context — a per-stage copy of the task is shallow — so the write is visible to other stages, pipelines and direct runs", an.Short(fn), prm.Name(), an.Short(site.Parent()), an.TypeField(fa2), an.Prov(fa2.X), p.Pos(site.Pos()))
 						}
 					}
 					return
@@ -252,6 +258,17 @@ func checkC08(c *an.Ctx) {
 					return
 				}
 				fa, isFA := u.X.(*ssa.FieldAddr)
+				if isFA && an.TypeIs(fa.X.Type(), "pkg/scheduler", "Stage") && fields[an.AccessPath(fa).LastField()] {
+					// a stage's own containers are part of the pipeline's definition: a value copy of the stage shares them
+					n++
+					keyS := an.Short(fn) + ":Set(Stage." + an.AccessPath(fa).LastField() + ")"
+					if freshContainer(recv, 0) {
+						c.OK(rule1, keyS, x.Pos(), "Set on a container built in this activation")
+					} else {
+						c.Bad(rule1, keyS, x.Pos(), "%s calls Set on the container held in Stage.%s of %s without having built that container itself: the stage definition — and every later use of its pipeline — keeps the value", an.Short(fn), an.AccessPath(fa).LastField(), an.Prov(fa.X))
+					}
+					return
+				}
 				if !isFA || !an.TypeIs(fa.X.Type(), "pkg/task", "Task") {
 					return
 				}
